@@ -11,7 +11,7 @@ import (
 	"github.com/semihalev/sdns/internal/verif/vlib"
 )
 
-var labelPool = []string{"a", "b", "c", "www", "example", "notexample", "com", "net", "org", "ads", "x", "sub", "deep", "ex-ample", "1", "_srv", "co", "mple"}
+var labelPool = []string{"a", "b", "c", "www", "example", "notexample", "com", "net", "org", "ads", "x", "sub", "deep", "ex-ample", "1", "_srv", "co", "mple", "az", "jazz", "z"}
 
 func randLabels(r *vlib.R, n int) []string {
 	out := make([]string, n)
@@ -56,6 +56,55 @@ func genUniverse(r *vlib.R) *universe {
 	return u
 }
 
+// boundaryCase: spellings that sit on the edges of the ASCII fold: ONLY the
+// letters a and/or z upper-cased (the ends of 'A'..'Z'), everything upper-cased,
+// or - must NOT be folded onto each other - the bytes just outside the letter
+// ranges ('@' '[' before/after 'A'..'Z', '`' '{' around 'a'..'z').
+func boundaryCase(r *vlib.R, s string) (string, string) {
+	b := []byte(s)
+	up := func(which string) {
+		for i, c := range b {
+			if strings.IndexByte(which, c) >= 0 {
+				b[i] = c - 32
+			}
+		}
+	}
+	switch r.Intn(7) {
+	case 0:
+		up("a")
+	case 1:
+		up("z")
+	case 2:
+		up("az")
+	case 3:
+		up("abcdefghijklmnopqrstuvwxyz")
+	case 4:
+		up("by") // the letters next to the ends
+	default:
+		// swap one letter-adjacent punctuation pair: a name that differs from the
+		// entry by exactly +-32 on a non-letter must not match
+		pairs := map[byte]byte{'@': '`', '`': '@', '[': '{', '{': '[', '^': '~', '~': '^', ']': '}', '}': ']', '\\': '|'}
+		hit := false
+		for i, c := range b {
+			if d, ok := pairs[c]; ok && c != '\\' {
+				b[i] = d
+				hit = true
+				break
+			}
+		}
+		if !hit {
+			up("az")
+		}
+		return string(b), "foldedge"
+	}
+	return string(b), "azcase"
+}
+
+// edgeLabel: a label containing a byte adjacent to the letter ranges.
+func edgeLabel(r *vlib.R) string {
+	return vlib.Pick(r, []string{"a[b", "a{b", "x`y", "q^r", "q~r", "m]n", "m}n", "az[", "{za"})
+}
+
 func mixCase(r *vlib.R, s string) string {
 	b := []byte(s)
 	for i, c := range b {
@@ -96,7 +145,13 @@ func (u *universe) entry(r *vlib.R, kind string) (string, string) {
 		// malformed
 		return vlib.Pick(r, []string{"a..b.com", ".com", "..", "a.b\\", "*.*.", "*..com", "*"}), "malformed"
 	}
+	if r.Chance(1, 20) {
+		l = append([]string{edgeLabel(r)}, l...)
+	}
 	s := entryText(r, l)
+	if r.Chance(1, 8) {
+		s, _ = boundaryCase(r, strings.ToLower(s))
+	}
 	if kind == "wild" {
 		s = "*." + s
 		if r.Chance(1, 6) {
@@ -158,8 +213,17 @@ func (u *universe) query(r *vlib.R) (string, string) {
 		l = append([]string{l[0]}, l...)
 	}
 	s := joinLabels(l)
+	if r.Chance(1, 20) {
+		s = edgeLabel(r) + "." + s
+	}
 	if r.Chance(1, 4) {
 		s = mixCase(r, s)
+	} else if r.Chance(1, 4) {
+		var t string
+		s, t = boundaryCase(r, s)
+		if tag == "" {
+			tag = t
+		}
 	}
 	if r.Chance(1, 6) && s != "." {
 		s = s[:len(s)-1]
@@ -687,6 +751,18 @@ func gen(r *vlib.R, n int, tier string, emit func(string)) {
 	emit("bl serve " + enc("sub.example.com.") + " 28")
 	emit("bl serve " + enc("sub.example.com.") + " 16")
 	emit("bl serve " + enc("example.org.") + " 1")
+	for _, q := range []string{"Azure.example.com.", "aZure.example.com.", "AZure.example.com.", "AZURE.EXAMPLE.COM.", "azure.exAmple.com.", "jazZ.example.com", "Z.example.com.", "A.example.com."} {
+		emit("bl exists " + enc(q))
+		emit("bl serve " + enc(q) + " 1")
+	}
+	emit("bl set " + enc("Zone.AZ.net"))
+	emit("bl set " + enc("*.jaZZ.org"))
+	emit("bl set " + enc("a[b.edge.net"))
+	emit("bl set " + enc("x`y.edge.net"))
+	for _, q := range []string{"zone.az.net.", "ZONE.AZ.NET.", "www.Zone.aZ.net.", "x.JAZZ.org.", "x.jazz.ORG", "a{b.edge.net.", "A[B.edge.net.", "x@y.edge.net.", "X`Y.edge.net.", "sub.a{b.edge.net."} {
+		emit("bl exists " + enc(q))
+	}
+	emit("bl state")
 	emit("bl serve " + enc("other.example.com.") + " 1")
 	emit("bl serve " + enc("other.example.com.") + " 28")
 	emit("bl held")
